@@ -1,7 +1,7 @@
 from . import COMMON_TB, NOTE
 
 PROP = {
-    "modules": ["Proofs.C05", "Proofs.C05E2E"],
+    "modules": ["Proofs.C05", "Proofs.C05E2E", "Proofs.C05Spell"],
     "streams": [{"name": "scan"}, {"name": "val", "shards": 2}, {"name": "verbatim"}],
     "rule": "scan: every string of length<=5 (quick) / 6 (thorough) over {{ }} % - \" space newline a, harvested test "
             "templates and their mutants, random bytes / UTF-8 / delimiter-dense sources up to 64 KiB; a case is "
@@ -26,7 +26,11 @@ TEXT = {
               'returns the empty output and never an error whatever the body tokens are (comment_block_renders_nothing), and '
               'deleting a whole comment block after any prefix the parser leaves outside comment/raw changes nothing '
               '(comment_block_erased); the token-level statements assume that no object token of the body has arguments outside '
-              'the expression-lexer model (negative-zero literal; the model answers `unmodelled` there). Ties: the tokenizer model is compared with parser.Scan on exhaustive '
+              'the expression-lexer model (negative-zero literal; the model answers `unmodelled` there). From source bytes, for every '
+              'delimiter set satisfying GoodDelims and every body satisfying the decidable predicate Clean (C19, scan_spell): the '
+              'source `TL raw TR body TL endraw TR` renders to exactly the bytes of the body as written '
+              '(raw_source_renders_body) and `TL comment TR body TL endcomment TR` renders to nothing, never an error '
+              '(comment_source_renders_nothing). Ties: the tokenizer model is compared with parser.Scan on exhaustive '
               'small strings and random/64KiB inputs; printed values with the real writeObject; the `verbatim` stream renders '
               'text / raw / comment / string-value templates on the real engine and checks byte equality with the source pieces; '
               'the partition/line oracle is evaluated on the real tokens.'),
